@@ -100,7 +100,8 @@ def make_tempo(s, d, probe, variant=0, dkmax=2):
                   lindblad_operators=[probe.wrap_raw(lambda t: op.sigma("-") + 0.0 * t)])
     system = oqupy.TimeDependentSystem(ham, **kw)
     subdiv = 256 if variant == 2 else None
-    par = oqupy.TempoParameters(dt=d, epsrel=1e-4, dkmax=dkmax, subdiv_limit=subdiv)
+    par = oqupy.TempoParameters(dt=d, epsrel=1e-4, subdiv_limit=subdiv,
+                                **memory_regime(variant, dkmax))
     obj = oqupy.Tempo(system=system, bath=oq.cheap_bath(), parameters=par,
                       initial_state=op.spin_dm("z+"), start_time=s)
     b = obj._backend_instance
@@ -120,7 +121,8 @@ def make_mft(s, d, probe, variant=0, dkmax=2):
     system = oqupy.TimeDependentSystemWithField(ham)
     mfs = oqupy.MeanFieldSystem([system], eom)
     subdiv = 256 if variant == 2 else None
-    par = oqupy.TempoParameters(dt=d, epsrel=1e-4, dkmax=dkmax, subdiv_limit=subdiv)
+    par = oqupy.TempoParameters(dt=d, epsrel=1e-4, subdiv_limit=subdiv,
+                                **memory_regime(variant, dkmax))
     obj = oqupy.MeanFieldTempo(mean_field_system=mfs, bath_list=[oq.cheap_bath()],
                                initial_state_list=[op.spin_dm("z+")], initial_field=1.0 + 0.5j,
                                start_time=s, parameters=par)
@@ -133,6 +135,20 @@ def make_mft(s, d, probe, variant=0, dkmax=2):
 
 
 MAKERS = {"tempo": make_tempo, "mft": make_mft}
+
+
+def memory_regime(variant, dkmax):
+    """variants 3 / 4 select the memory regime: no cut-off at all (the influence MPO keeps
+    growing) / cut-off with add_correlation_time (steps beyond dkmax use a modified tensor);
+    every other variant: plain cut-off dkmax=2 (steps 3.. are beyond it)"""
+    if variant == 3:
+        return dict(dkmax=None)
+    if variant == 4:
+        return dict(dkmax=dkmax, add_correlation_time=0.15)
+    return dict(dkmax=dkmax)
+
+
+REGIME = {3: ":no-memory-cutoff", 4: ":add_correlation_time"}
 
 
 def dyn_snapshot(api, dyn):
@@ -489,6 +505,10 @@ def correspondence(res, tier, rng):
             s_l, d_l = GRIDS[i % len(GRIDS)] if len(ms) > 1 else GRIDS[0]
             s, d = float(s_l), float(d_l)
             variant = 1 if (api == "tempo" and i % 5 == 0) else 0
+            if i % 7 == 3:
+                variant = 3                    # no memory cut-off
+            elif i % 7 == 5:
+                variant = 4                    # cut-off with add_correlation_time
             targets = [target_time(rng, s_l, d_l, m) for m in ms]
             ops = []
             for t in targets:
@@ -511,6 +531,9 @@ def correspondence(res, tier, rng):
     for api in ("tempo", "mft"):
         configs = [(GRIDS[0], 3, 0)] if tier == "quick" else \
             [(GRIDS[0], 4, 0), (GRIDS[1], 3, 1 if api == "tempo" else 0), (GRIDS[2], 4, 2)]
+        # both other memory regimes (the rollback of a mean-field step must be exact in each)
+        if api == "mft" or tier != "quick":
+            configs += [(GRIDS[0], 4, 3), (GRIDS[0], 4, 4)]
         for (s_l, d_l), m, variant in configs:
             s, d = float(s_l), float(d_l)
             target = dec_sum(s_l, d_l, m)
@@ -519,7 +542,8 @@ def correspondence(res, tier, rng):
             idx = list(range(nraw))
             if variant == 2:                           # quadrature: many calls, sample them
                 idx = sorted(rng.sample(idx, min(len(idx), 24)))
-            kinds = [(r, b) for r in idx for b in ((False, True) if api == "mft" else (r % 2 == 1,))]
+            both = api == "mft" and (variant < 3 or tier != "quick")
+            kinds = [(r, b) for r in idx for b in ((False, True) if both else (r % 2 == 1,))]
             for r, base in kinds:
                 shape = r % 3
                 if shape == 0:
@@ -544,8 +568,9 @@ def correspondence(res, tier, rng):
                     hist_expect(rec, same),
                     {"kind": "fault", "api": api, "start": s, "dt": d, "ops": ops,
                      "raw_index": r, "variant": variant, "base_exception": base})
-                res.count("fault:%s:callable%d:%s" % (api, rec["trace"][rec["fired_inv"]][0],
-                                                      "BaseException" if base else "Exception"))
+                res.count("fault:%s:callable%d:%s%s" % (api, rec["trace"][rec["fired_inv"]][0],
+                                                        "BaseException" if base else "Exception",
+                                                        REGIME.get(variant, "")))
 
     # (c) PT-TEMPO histories
     pt_hist = ["".join(p) for L in (1, 2, 3) for p in itertools.product("cg", repeat=L)]
@@ -674,7 +699,8 @@ def oracle_retry(res, api, s_l, d_l, m, variant, indices=None, base=False):
             what = {("tempo", 0): "system-propagators",
                     ("mft", 0): "field_eom-derivative", ("mft", 1): "system-propagators",
                     ("mft", 2): "field_eom-after-network-update"}[(api, cid)]
-            res.fail("retry:%s:%s%s" % (name, what, ":BaseException" if base else ""),
+            res.fail("retry:%s:%s%s%s" % (name, what, ":BaseException" if base else "",
+                                          REGIME.get(variant, "")),
                      {"api": name, "start_time": s, "dt": d, "end_time": target, "variant": variant,
                       "raised_class": "a BaseException subclass that is not an Exception "
                                       "(like KeyboardInterrupt)" if base else "an Exception subclass",
@@ -781,6 +807,9 @@ def search(res, rng=None):
         for base in (False, True):
             oracle_retry(res, api, "0.0", "0.1", 5, 0, base=base)
         oracle_retry(res, api, "0.5", "0.2", 3, 1 if api == "tempo" else 0)
+        # the other memory regimes: no cut-off, cut-off with add_correlation_time
+        oracle_retry(res, api, "0.0", "0.1", 5, 3, base=(api == "tempo"))
+        oracle_retry(res, api, "0.0", "0.1", 5, 4, base=(api == "mft"))
     # read-only getters between compute calls
     for (pre, post, ops) in [((), (), [2, "d", 4]), ((1,), (2,), [0, "d", 3]),
                              ((), (), [2, "r", 4]), ((), (), [2, "m", 4]),
@@ -816,7 +845,7 @@ def replay_case(res, payload):
         r = fi["raw_user_call_index_that_raises_once"]
         ref = single_call(api, s, d, target, fi.get("variant", 0))
         rec = run_history(api, s, d, [("c", target), ("c", target)], r, fi.get("variant", 0),
-                          key.endswith(":BaseException"))
+                          ":BaseException" in key)
         if rec["oks"][:1] == "0" and rec["oks"][1:] != "0" and not (
                 rec["oks"][1:] == "1" and same_dynamics(rec["dyn"], ref["dyn"])):
             res.fail(key, fi)
@@ -841,7 +870,8 @@ def run(tier, seed, replay):
     res = fw.Result(PID, tier, seed, level="proof")
     rng = random.Random(seed)
     res.rule = (
-        "real Tempo/MeanFieldTempo objects (2-level, dkmax=2, <= 6 steps, time-dependent "
+        "real Tempo/MeanFieldTempo objects (2-level, <= 6 steps, memory regimes dkmax=2 / dkmax=2 "
+        "with add_correlation_time / no cut-off, time-dependent "
         "Hamiltonian/rates/field equation wrapped by counters): every target sequence over a "
         "4-step grid up to length 2 (quick) / 3 (thorough), sampled longer ones, targets as "
         "literals / computed / off-grid / before start, interleaved get_dynamics; a transient "
